@@ -195,3 +195,369 @@ Proof.
   - exact (wf_acyclic _ W).
   - unfold fuel_of. lia.
 Qed.
+
+(* ---------- structure-preserving edge transformers ---------- *)
+Definition sp (G : list edge) (g : edge -> edge) : Prop :=
+  forall e, In e G -> e_id (g e) = e_id e /\ e_up (g e) = e_up e /\ e_down (g e) = e_down e.
+
+Lemma sp_toggle G vs d : sp G (toggle vs d).
+Proof. intros e _. rewrite toggle_id, toggle_up, toggle_down. auto. Qed.
+
+Lemma sp_tail e G g : sp (e :: G) g -> sp G g.
+Proof. intros H x Hx. apply H. right. exact Hx. Qed.
+
+Lemma map_id_sp g G : sp G g -> map e_id (map g G) = map e_id G.
+Proof.
+  induction G as [|e G IH]; intros H; [reflexivity|]. cbn [map].
+  destruct (H e (or_introl eq_refl)) as (-> & _). rewrite IH by (eapply sp_tail; exact H). reflexivity.
+Qed.
+
+Lemma childs_sp g G v : sp G g -> childs (map g G) v = map g (childs G v).
+Proof.
+  unfold childs. induction G as [|e G IH]; intros H; [reflexivity|]. cbn [map filter].
+  destruct (H e (or_introl eq_refl)) as (_ & -> & _).
+  rewrite IH by (eapply sp_tail; exact H). destruct (bytes_eqb (e_up e) v); reflexivity.
+Qed.
+
+Lemma parents_sp g G v : sp G g -> parents (map g G) v = map g (parents G v).
+Proof.
+  unfold parents. induction G as [|e G IH]; intros H; [reflexivity|]. cbn [map filter].
+  destruct (H e (or_introl eq_refl)) as (_ & _ & ->).
+  rewrite IH by (eapply sp_tail; exact H). destruct (bytes_eqb (e_down e) v); reflexivity.
+Qed.
+
+Lemma in_parents_G G x e : In e (parents G x) -> In e G.
+Proof. unfold parents. rewrite filter_In. tauto. Qed.
+
+Lemma flat_map_map_in {A B C} (g : A -> B) (f : B -> list C) (h : A -> list C) l :
+  (forall a, In a l -> f (g a) = h a) -> flat_map f (map g l) = flat_map h l.
+Proof.
+  induction l as [|a l IH]; intros H; [reflexivity|]. cbn. rewrite (H a) by (left; reflexivity).
+  rewrite IH; [reflexivity|]. intros b Hb. apply H. right. exact Hb.
+Qed.
+
+Lemma visits_sp g G : sp G g -> forall f x, visits (map g G) f x = visits G f x.
+Proof.
+  intros H. induction f as [|f IH]; intros x; [reflexivity|]. cbn [visits].
+  rewrite parents_sp by exact H. apply flat_map_map_in. intros e He.
+  destruct (H e (in_parents_G _ _ _ He)) as (-> & -> & _). rewrite IH. reflexivity.
+Qed.
+
+Lemma walk_sp g G : sp G g -> forall l' x, gwalk (map g G) x l' ->
+  exists l, gwalk G x l /\ gendpoint x l = gendpoint x l' /\ length l = length l'.
+Proof.
+  intros H. induction l' as [|e' l' IH]; intros x Hw.
+  - exists []. repeat split.
+  - destruct Hw as (He' & _ & Hd & Hw). apply in_map_iff in He' as (e & <- & He).
+    destruct (H e He) as (_ & Hu & Hdn). rewrite Hu in Hw. destruct (IH _ Hw) as (l & Hl & Hend & Hlen).
+    exists (e :: l). split; [|split].
+    + cbn. rewrite <- Hdn. repeat split; auto.
+    + unfold GraphWalk.endpoint in *. cbn [fold_left]. rewrite Hu. exact Hend.
+    + cbn. rewrite Hlen. reflexivity.
+Qed.
+
+Lemma acyclic_sp g G : sp G g -> gacyclic G -> gacyclic (map g G).
+Proof.
+  intros H Hac x l' Hne Hw. destruct (walk_sp g G H l' x Hw) as (l & Hl & Hend & Hlen).
+  rewrite <- Hend. apply Hac; [|exact Hl]. intros ->. destruct l'; [contradiction|discriminate].
+Qed.
+
+(* realisation lemma: if the generic invariant holds for (L', H') on G and the transformer g
+   gives every edge the hash H' and the local term L', the store invariant holds on map g G *)
+Lemma inv_realised ns' G (g : edge -> edge) (L' H' : N -> N) :
+  sp G g ->
+  gInv G L' H' ->
+  (forall e, In e G -> e_hash (g e) = H' (e_id e)) ->
+  (forall e, In e G -> local ns' (g e) = L' (e_id e)) ->
+  forall e', In e' (map g G) ->
+    e_hash e' = N.lxor (local ns' e') (xorl e_hash (childs (map g G) (e_down e'))).
+Proof.
+  intros Hsp HI HH HL e' He'. apply in_map_iff in He' as (e & <- & He).
+  rewrite (HH e He), (HL e He). destruct (Hsp e He) as (_ & _ & ->).
+  rewrite childs_sp by exact Hsp. rewrite xorl_map.
+  rewrite (HI e He). f_equal.
+  apply xorl_ext_in. intros c Hc. symmetry. apply HH. eapply in_childs. exact Hc.
+Qed.
+
+Lemma wf_sp st g ns' root : sp (s_edges st) g -> wf st ->
+  wf (mkStore ns' (map g (s_edges st)) root (s_next st)).
+Proof.
+  intros H W. constructor; cbn [s_edges s_next].
+  - rewrite map_id_sp by exact H. exact (wf_ids _ W).
+  - intros e' He'. apply in_map_iff in He' as (e & <- & He). destruct (H e He) as (-> & _). apply (wf_next _ W). exact He.
+  - apply acyclic_sp; [exact H|exact (wf_acyclic _ W)].
+  - intros e' He'. apply in_map_iff in He' as (e & <- & He). destruct (H e He) as (_ & _ & ->). apply (wf_none _ W). exact He.
+Qed.
+
+(* ---------- node point writes ---------- *)
+Lemma node_rows_set_same ns id rows : node_rows (set_node_rows ns id rows) id = rows.
+Proof.
+  induction ns as [|[i r] ns IH]; cbn.
+  - rewrite bytes_eqb_refl. reflexivity.
+  - destruct (bytes_eqb i id) eqn:E; cbn; rewrite E; [reflexivity|exact IH].
+Qed.
+
+Lemma node_rows_set_other ns id rows id' : id' <> id -> node_rows (set_node_rows ns id rows) id' = node_rows ns id'.
+Proof.
+  intros Hne. induction ns as [|[i r] ns IH]; cbn.
+  - destruct (bytes_eqb id id') eqn:E; [apply bytes_eqb_eq in E; congruence|reflexivity].
+  - destruct (bytes_eqb i id) eqn:E; cbn.
+    + apply bytes_eqb_eq in E. subst i.
+      destruct (bytes_eqb id id') eqn:E2; [apply bytes_eqb_eq in E2; congruence|reflexivity].
+    + destruct (bytes_eqb i id'); [reflexivity|exact IH].
+Qed.
+
+Theorem node_points_inv st id pts st' :
+  wf st -> Inv st -> node_points st id pts = Ok st' -> wf st' /\ Inv st'.
+Proof.
+  intros W HI. unfold node_points. destruct (has_nan pts); [discriminate|].
+  destruct (merge_batch false (node_rows (s_nodes st) id) (collapse pts)) as [rows d] eqn:EM.
+  intros E. inversion E; subst st'; clear E.
+  pose proof (merge_batch_snd false (node_rows (s_nodes st) id) (collapse pts)) as Hd. rewrite EM in Hd. cbn [fst snd] in Hd.
+  unfold update_hash. set (G := s_edges st). set (V := visits G (fuel_of G) id).
+  split; [apply wf_sp; [apply sp_toggle|exact W]|].
+  intros e' He'. cbn [s_edges s_nodes] in *.
+  set (ns' := set_node_rows (s_nodes st) id rows).
+  set (L' := fun i => match find_id G i with
+                      | Some e => if bytes_eqb (e_down e) id then N.lxor (local (s_nodes st) e) d else local (s_nodes st) e
+                      | None => 0 end).
+  apply (inv_realised ns' G (toggle V d) L' (fun i => N.lxor (Hf G i) (GraphCount.tog d (GraphCount.par V i)))).
+  - apply sp_toggle.
+  - unfold V. rewrite (visits_generic G (wf_none _ W)).
+    apply (GraphCount.node_update_preserves_inv bytes bytes_eqb bytes_eqb_eq edge e_id e_up e_down G (wf_ids _ W)
+             (Lf (s_nodes st) G) L' (Hf G) (fuel_of G) id d).
+    + apply (proj1 (Inv_gInv st (wf_ids _ W))). exact HI.
+    + apply fuel_ok. exact W.
+    + intros e He. unfold L', Lf. rewrite (find_id_in G e (wf_ids _ W) He). reflexivity.
+  - intros e He. rewrite toggle_hash. unfold Hf. rewrite (find_id_in G e (wf_ids _ W) He). reflexivity.
+  - intros e He. unfold L'. rewrite (find_id_in G e (wf_ids _ W) He).
+    unfold local. rewrite toggle_down, toggle_pts. unfold ns'.
+    destruct (bytes_eqb (e_down e) id) eqn:E.
+    + apply bytes_eqb_eq in E. rewrite E, node_rows_set_same, Hd.
+      xor_ac.
+    + rewrite node_rows_set_other; [reflexivity|]. intros Heq. rewrite Heq, bytes_eqb_refl in E. discriminate.
+  - exact He'.
+Qed.
+
+(* ---------- edge point writes ---------- *)
+Lemma hsum_fold l : fold_left (fun a c => N.lxor a (e_hash c)) l 0 = xorl e_hash l.
+Proof.
+  assert (H : forall a, fold_left (fun a c => N.lxor a (e_hash c)) l a = N.lxor a (xorl e_hash l)).
+  { induction l as [|c l IH]; intros a; cbn [fold_left GraphCount.xorl]; [rewrite N.lxor_0_r; reflexivity|].
+    rewrite IH. xor_ac. }
+  rewrite H, N.lxor_0_l. reflexivity.
+Qed.
+
+Lemma find_edge_spec G up down e : find_edge G up down = Some e ->
+  In e G /\ e_up e = up /\ e_down e = down.
+Proof.
+  unfold find_edge. intros H. apply find_some in H as [Hin H]. apply andb_prop in H as [H1 H2].
+  apply bytes_eqb_eq in H1, H2. auto.
+Qed.
+
+Lemma eid_inj G e1 e2 : NoDup (map e_id G) -> In e1 G -> In e2 G -> e_id e1 = e_id e2 -> e1 = e2.
+Proof. intros ND. apply (GraphCount.eid_inj edge e_id G ND). Qed.
+
+Lemma visits_none G f : (forall e, In e G -> e_down e <> str_none) -> gvisits G f str_none = [].
+Proof.
+  intros Hn. destruct f as [|f]; [reflexivity|]. cbn [GraphCount.visits].
+  rewrite <- parents_eq, (parents_none_nil G Hn). reflexivity.
+Qed.
+
+(* the list of toggled ids of updateEdgeHash, in terms of the generic visits *)
+Lemma edge_vs_generic G eid parent :
+  (forall e, In e G -> e_down e <> str_none) ->
+  eid :: (if bytes_eqb parent str_none then [] else visits G (fuel_of G) parent) =
+  eid :: gvisits G (fuel_of G) parent.
+Proof.
+  intros Hn. f_equal. destruct (bytes_eqb parent str_none) eqn:E.
+  - apply bytes_eqb_eq in E. subst. symmetry. apply visits_none. exact Hn.
+  - apply visits_generic. exact Hn.
+Qed.
+
+Definition with_pts (e : edge) (rows : list point) : edge :=
+  mkEdge (e_id e) (e_up e) (e_down e) (e_type e) rows (e_hash e).
+
+Theorem edge_points_existing_inv st e rows d :
+  wf st -> Inv st -> In e (s_edges st) ->
+  d = N.lxor (xor_crcs (e_pts e)) (xor_crcs rows) ->
+  let st' := mkStore (s_nodes st) (update_edge_hash (set_edge (s_edges st) (with_pts e rows)) (e_id e) (e_up e) d)
+                     (s_root st) (s_next st) in
+  wf st' /\ Inv st'.
+Proof.
+  intros W HI He Hd. cbv zeta. set (G := s_edges st) in *.
+  set (e' := with_pts e rows).
+  set (setter := fun x : edge => if e_id x =? e_id e' then e' else x).
+  assert (Hset : set_edge G e' = map setter G) by reflexivity.
+  assert (Hsp1 : sp G setter).
+  { intros x Hx. unfold setter. destruct (e_id x =? e_id e') eqn:E; [|auto].
+    apply N.eqb_eq in E. assert (x = e) by (apply (eid_inj G); auto using (wf_ids _ W)). subst x. cbn. auto. }
+  assert (Hn1 : forall x, In x (map setter G) -> e_down x <> str_none).
+  { intros x Hx. apply in_map_iff in Hx as (y & <- & Hy). destruct (Hsp1 y Hy) as (_ & _ & ->). apply (wf_none _ W). exact Hy. }
+  unfold update_edge_hash. rewrite Hset.
+  assert (Hfuel : fuel_of (map setter G) = fuel_of G) by (unfold fuel_of; rewrite map_length; reflexivity).
+  rewrite (edge_vs_generic (map setter G) (e_id e) (e_up e) Hn1).
+  rewrite <- (visits_generic (map setter G) Hn1), (visits_sp setter G Hsp1), Hfuel, (visits_generic G (wf_none _ W)).
+  set (V := e_id e :: gvisits G (fuel_of G) (e_up e)).
+  rewrite map_map.
+  set (g := fun x => toggle V d (setter x)).
+  assert (Hsp : sp G g).
+  { intros x Hx. unfold g. rewrite toggle_id, toggle_up, toggle_down. apply Hsp1. exact Hx. }
+  split; [apply (wf_sp st g (s_nodes st) (s_root st) Hsp W)|].
+  intros x' Hx'. cbn [s_edges s_nodes] in *.
+  set (L' := fun i => if i =? e_id e then N.lxor (Lf (s_nodes st) G i) d else Lf (s_nodes st) G i).
+  apply (inv_realised (s_nodes st) G g L' (fun i => N.lxor (Hf G i) (GraphCount.tog d (GraphCount.par V i)))).
+  - exact Hsp.
+  - apply (GraphCount.edge_update_preserves_inv bytes bytes_eqb bytes_eqb_eq edge e_id e_up e_down G (wf_ids _ W)
+             (Lf (s_nodes st) G) L' (Hf G) (fuel_of G) e d).
+    + apply (proj1 (Inv_gInv st (wf_ids _ W))). exact HI.
+    + exact He.
+    + apply fuel_ok. exact W.
+    + intros x Hx. reflexivity.
+  - intros x Hx. unfold g. rewrite toggle_hash. destruct (Hsp1 x Hx) as (-> & _).
+    unfold Hf. rewrite (find_id_in G x (wf_ids _ W) Hx). f_equal.
+    unfold setter. destruct (e_id x =? e_id e') eqn:E; [|reflexivity].
+    apply N.eqb_eq in E. assert (x = e) by (apply (eid_inj G); auto using (wf_ids _ W)). subst x. reflexivity.
+  - intros x Hx. unfold g, L', Lf. rewrite (find_id_in G x (wf_ids _ W) Hx).
+    unfold local. rewrite toggle_down, toggle_pts. unfold setter.
+    change (e_id e') with (e_id e).
+    destruct (e_id x =? e_id e) eqn:E.
+    + apply N.eqb_eq in E. assert (x = e) by (apply (eid_inj G); auto using (wf_ids _ W)). subst x.
+      cbn [e_down e_pts e' with_pts]. rewrite Hd. xor_ac.
+    + reflexivity.
+  - exact Hx'.
+Qed.
+
+(* ---------- isUpstream is the upward reachability test ---------- *)
+Notation greach := (GraphWalk.reach bytes bytes_eqb edge e_up e_down).
+Notation gswalk := (GraphWalk.swalk bytes edge e_up e_down).
+
+Lemma psel_true G x : GraphWalk.psel bytes bytes_eqb edge e_down G (fun _ => true) x = parents G x.
+Proof. unfold GraphWalk.psel, parents. apply filter_ext. intros e. apply andb_true_r. Qed.
+
+Lemma is_upstream_reach G : forall f t id,
+  is_upstream G f t id = true <-> In t (greach G (fun _ => true) f id).
+Proof.
+  induction f as [|f IH]; intros t id; cbn [is_upstream GraphWalk.reach].
+  - rewrite orb_false_r, bytes_eqb_eq. split; [intros ->; left; reflexivity|intros [H|[]]; exact H].
+  - rewrite orb_true_iff, bytes_eqb_eq, existsb_exists, psel_true. split.
+    + intros [->|(e & He & H)]; [left; reflexivity|]. right. apply in_flat_map. exists e. split; [exact He|].
+      apply IH. exact H.
+    + intros [H|H]; [left; exact H|]. right. apply in_flat_map in H as (e & He & H). exists e. split; [exact He|].
+      apply IH. exact H.
+Qed.
+
+Lemma not_upstream_no_walk G node parent :
+  NoDup (map e_id G) -> gacyclic G ->
+  is_upstream G (fuel_of G) node parent = false ->
+  forall l, gwalk G parent l -> gendpoint parent l <> node.
+Proof.
+  intros ND Hac Hno l Hw Hend.
+  assert (is_upstream G (fuel_of G) node parent = true); [|congruence].
+  apply is_upstream_reach.
+  apply (GraphWalk.reach_exact_acyclic bytes bytes_eqb bytes_eqb_eq edge e_id e_up e_down G ND (fun _ => true)).
+  - exact Hac.
+  - unfold fuel_of. lia.
+  - exists l. split; [exact Hw|exact Hend].
+Qed.
+
+(* ---------- appending a fresh edge with hash 0 ---------- *)
+Lemma childs_app G e v : childs (G ++ [e]) v = childs G v ++ (if bytes_eqb (e_up e) v then [e] else []).
+Proof. unfold childs. rewrite filter_app. cbn [filter]. destruct (bytes_eqb (e_up e) v); reflexivity. Qed.
+
+Lemma xorl_app (f : edge -> N) l1 l2 : xorl f (l1 ++ l2) = N.lxor (xorl f l1) (xorl f l2).
+Proof.
+  induction l1 as [|a l1 IH]; cbn [app GraphCount.xorl]; [rewrite N.lxor_0_l; reflexivity|].
+  rewrite IH, N.lxor_assoc. reflexivity.
+Qed.
+
+Lemma find_id_app_old G e id : id <> e_id e -> find_id (G ++ [e]) id = find_id G id.
+Proof.
+  intros Hne. unfold find_id. induction G as [|g G IH]; cbn [app find].
+  - destruct (e_id e =? id) eqn:E; [apply N.eqb_eq in E; congruence|reflexivity].
+  - destruct (e_id g =? id); [reflexivity|exact IH].
+Qed.
+
+Lemma find_id_app_new G e : ~ In (e_id e) (map e_id G) -> find_id (G ++ [e]) (e_id e) = Some e.
+Proof.
+  intros Hn. unfold find_id. induction G as [|g G IH]; cbn [app find].
+  - rewrite N.eqb_refl. reflexivity.
+  - destruct (e_id g =? e_id e) eqn:E.
+    + exfalso. apply N.eqb_eq in E. apply Hn. left. exact E.
+    + apply IH. intros H. apply Hn. right. exact H.
+Qed.
+
+Theorem edge_points_new_inv st node parent nt rows :
+  wf st -> Inv st ->
+  node <> parent -> node <> str_none ->
+  find_edge (s_edges st) parent node = None ->
+  is_upstream (s_edges st) (fuel_of (s_edges st)) node parent = false ->
+  let G := s_edges st in
+  let d := N.lxor (N.lxor (xor_crcs rows) (xor_crcs (node_rows (s_nodes st) node)))
+                  (fold_left (fun a c => N.lxor a (e_hash c)) (childs G node) 0) in
+  let e := mkEdge (s_next st) parent node nt rows 0 in
+  forall root',
+  let st' := mkStore (s_nodes st) (update_edge_hash (G ++ [e]) (e_id e) parent d) root' (s_next st + 1) in
+  wf st' /\ Inv st'.
+Proof.
+  intros W HI Hself Hnone Hfind Hup. cbv zeta. intros root'.
+  set (G := s_edges st). set (e := mkEdge (s_next st) parent node nt rows 0).
+  set (d := N.lxor (N.lxor (xor_crcs rows) (xor_crcs (node_rows (s_nodes st) node)))
+                   (fold_left (fun a c => N.lxor a (e_hash c)) (childs G node) 0)).
+  set (G1 := G ++ [e]).
+  assert (Hfresh : ~ In (e_id e) (map e_id G)).
+  { intros Hin. apply in_map_iff in Hin as (x & Hx & Hin). pose proof (wf_next _ W x Hin). cbn in Hx. lia. }
+  assert (ND1 : NoDup (map e_id G1)).
+  { unfold G1. rewrite map_app. cbn [map]. apply NoDup_app_intro || idtac.
+    rewrite <- (rev_involutive (map e_id G ++ [e_id e])). apply NoDup_rev. rewrite rev_app_distr. cbn.
+    constructor; [rewrite <- in_rev; exact Hfresh|apply NoDup_rev; exact (wf_ids _ W)]. }
+  assert (Hac1 : gacyclic G1).
+  { apply (GraphWalk.add_edge_acyclic bytes edge e_id e_up e_down G e Hfresh (wf_acyclic _ W)).
+    - cbn. exact Hself.
+    - cbn [e_up e_down e]. apply not_upstream_no_walk; [exact (wf_ids _ W)|exact (wf_acyclic _ W)|exact Hup]. }
+  assert (Hn1 : forall x, In x G1 -> e_down x <> str_none).
+  { intros x Hx. apply in_app_or in Hx as [Hx|[<-|[]]]; [apply (wf_none _ W); exact Hx|exact Hnone]. }
+  assert (W1 : wf (mkStore (s_nodes st) G1 root' (s_next st + 1))).
+  { constructor; cbn [s_edges s_next]; auto.
+    intros x Hx. apply in_app_or in Hx as [Hx|[<-|[]]]; [pose proof (wf_next _ W x Hx); lia|cbn; lia]. }
+  (* the generic invariant on G1 with the new edge's local term chosen so that its hash 0 is right *)
+  set (L1 := fun i => if i =? e_id e then xorl e_hash (childs G node) else Lf (s_nodes st) G i).
+  assert (HI1 : gInv G1 L1 (Hf G1)).
+  { intros x Hx. unfold Hf at 1. rewrite (find_id_in G1 x ND1 Hx).
+    change (gchilds G1 (e_down x)) with (childs G1 (e_down x)).
+    assert (Hch : forall c, In c (childs G1 (e_down x)) -> Hf G1 (e_id c) = e_hash c).
+    { intros c Hc. unfold Hf. rewrite (find_id_in G1 c ND1); [reflexivity|]. eapply in_childs. exact Hc. }
+    rewrite (xorl_ext_in (fun c => Hf G1 (e_id c)) e_hash _ Hch).
+    unfold G1 at 1. rewrite childs_app, xorl_app.
+    apply in_app_or in Hx as [Hx|[<-|[]]].
+    - unfold L1. assert (e_id x =? e_id e = false) as ->.
+      { apply N.eqb_neq. intros E. apply Hfresh. rewrite <- E. apply in_map. exact Hx. }
+      unfold Lf. rewrite (find_id_in G x (wf_ids _ W) Hx). rewrite (HI x Hx). fold G.
+      destruct (bytes_eqb (e_up e) (e_down x)); cbn [GraphCount.xorl]; [change (e_hash e) with 0|]; xor_ac.
+    - unfold L1. rewrite N.eqb_refl. cbn [e_down e e_up e_hash].
+      assert (bytes_eqb parent node = false) as ->.
+      { destruct (bytes_eqb parent node) eqn:E; [|reflexivity]. apply bytes_eqb_eq in E. congruence. }
+      cbn [GraphCount.xorl]. xor_ac. }
+  unfold update_edge_hash. fold G1.
+  rewrite (edge_vs_generic G1 (e_id e) parent Hn1).
+  set (V := e_id e :: gvisits G1 (fuel_of G1) parent).
+  split; [apply (wf_sp (mkStore (s_nodes st) G1 root' (s_next st + 1)) (toggle V d) (s_nodes st) root' (sp_toggle _ _ _) W1)|].
+  intros x' Hx'. cbn [s_edges s_nodes] in *.
+  set (L' := fun i => if i =? e_id e then N.lxor (L1 i) d else L1 i).
+  apply (inv_realised (s_nodes st) G1 (toggle V d) L' (fun i => N.lxor (Hf G1 i) (GraphCount.tog d (GraphCount.par V i)))).
+  - apply sp_toggle.
+  - apply (GraphCount.edge_update_preserves_inv bytes bytes_eqb bytes_eqb_eq edge e_id e_up e_down G1 ND1
+             L1 L' (Hf G1) (fuel_of G1) e d).
+    + exact HI1.
+    + apply in_or_app. right. left. reflexivity.
+    + apply (fuel_ok _ parent W1).
+    + intros x Hx. reflexivity.
+  - intros x Hx. rewrite toggle_hash. unfold Hf. rewrite (find_id_in G1 x ND1 Hx). reflexivity.
+  - intros x Hx. unfold local. rewrite toggle_down, toggle_pts. unfold L', L1.
+    apply in_app_or in Hx as [Hx|[<-|[]]].
+    + assert (e_id x =? e_id e = false) as ->.
+      { apply N.eqb_neq. intros E. apply Hfresh. rewrite <- E. apply in_map. exact Hx. }
+      unfold Lf. rewrite (find_id_in G x (wf_ids _ W) Hx). reflexivity.
+    + rewrite N.eqb_refl. cbn [e_down e_pts e]. unfold d. rewrite hsum_fold. xor_ac.
+  - exact Hx'.
+Qed.
